@@ -64,10 +64,34 @@ Fixpoint results_ok (impl inl : list (option (err cerr))) (ks : list (option (er
   | _, _, _ => false
   end.
 
+(* The include callback must have been called with (directive text, current path, namespace) exactly as
+   the inlining walk predicts, call by call: all of the predicted invocations when the inlined prefix
+   compiles, a prefix of them when it fails earlier. *)
+Fixpoint prefix_eqb {A} (eqb : A -> A -> bool) (a b : list A) : bool :=
+  match a, b with
+  | [], _ => true
+  | x :: a', y :: b' => eqb x y && prefix_eqb eqb a' b'
+  | _, _ => false
+  end.
+Definition logentry := (string * option string * string)%type.
+Fixpoint logs_ok (ilogs elogs : list (list logentry)) (inl : list (option (err cerr))) : bool :=
+  match ilogs, elogs, inl with
+  | [], [], [] => true
+  | l :: ls, e :: es, r :: rs =>
+      match r with
+      | None => list_eqb log_eqb l e
+      | Some _ => prefix_eqb log_eqb l e
+      end && logs_ok ls es rs
+  | _, _, _ => false
+  end.
+
 Definition C20_case (en : env plain) (ks : list (call plain))
-           (impl inl : outcome) (expected : list (option (err cerr))) : bool * bool * N :=
+           (impl inl : outcome) (expected : list (option (err cerr)))
+           (ilogs elogs : list (list logentry)) : bool * bool * N :=
   (outcome_eqb impl (model_outcome en ks),
    results_ok (o_results impl) (o_results inl) expected
    && list_eqb rule4_eqb (o_rules impl) (o_rules inl)
-   && list_eqb pair_str_eqb (o_matched impl) (o_matched inl),
+   && list_eqb pair_str_eqb (o_matched impl) (o_matched inl)
+   && logs_ok ilogs elogs (o_results inl)
+   && list_eqb log_eqb (o_log impl) (concat ilogs),
    0).
